@@ -1,9 +1,105 @@
 import Driver.Util
-open Lean
+import Driver.PyJson
+import Torf.Model.ReadStream
+open Lean Torf Torf.Bencode Torf.Codec Torf.ReadStream
 namespace Driver.C05
 
-/-- ops of property C05: `c05.<name>` -/
-def handle (op : String) (_j : Json) : Except String Json :=
-  throw s!"unknown op {op}"
+def errName : Err → String
+  | .value => "value" | .metainfo => "metainfo" | .bdecode => "bdecode" | .read => "read"
+  | .magnet => "magnet"
+
+def jexc (f : α → Json) : Except Err α → Json
+  | .ok a => jobj [("ok", f a)]
+  | .error e => jobj [("err", jstr (errName e))]
+
+def bvalJson (v : BVal) : Json := pyToJson (raw v)
+def jhex (b : Bytes) : Json := jstr (hexOf b)
+
+/-- every dict key of the value is valid UTF-8 -/
+partial def utf8Keys : BVal → Bool
+  | .dict kvs => kvs.all fun (k, v) => (utf8Dec k).isSome && utf8Keys v
+  | .list l => l.all utf8Keys
+  | _ => true
+
+def mkEnv (j : Json) : Except String Env := do
+  let vok ← getBool j "vok"
+  let cd := j.getObjValD "cd"
+  let d : Option PyVal ← if cd.isNull then pure none else some <$> pyOfJson cd
+  return { fromTs := fun _ => d, validate := fun _ => vok }
+
+/-- op `c05.parse` : {x} ↦ model = flatbencode.decode(x) (value or null), strict = accepted by
+    the conforming parser -/
+def parseOp (j : Json) : Except String Json := do
+  let x ← getHex j "x"
+  let r := parsePy x
+  return jobj [("model", jopt bvalJson r),
+               ("strict", jbool (parseStrict pyMaxDigits x).isSome),
+               ("reser", jopt (fun v => jhex (ser v)) r)]
+
+/-- hypotheses of C05_dump_read evaluated on the strict parse of `x` -/
+def hypOf (env : Env) (x : Bytes) : Bool × List (String × Json) :=
+  match parseStrict env.lim x with
+  | some (.dict enc) =>
+    let keysOk := utf8Keys (.dict enc)
+    let info := lookup kInfo enc
+    let privOk := match info with
+      | some (.dict ikvs) => match lookup kPrivate ikvs with
+        | some (.int 0) => true | some (.int 1) => true | some _ => false | none => true
+      | _ => true
+    let piecesOk := match info with
+      | some (.dict ikvs) => match lookup kPieces ikvs with
+        | some (.bytes _) => true | some _ => false | none => true
+      | _ => true
+    let dateOk := match lookup kCreationDate enc with
+      | some (.int i) => (match env.fromTs i with | some (.datetime (some t)) => t == i | _ => false)
+      | some _ => false
+      | none => true
+    (keysOk && privOk && piecesOk && dateOk,
+     [("canon", jbool true), ("utf8keys", jbool keysOk), ("privateOk", jbool privOk),
+      ("piecesOk", jbool piecesOk), ("dateOk", jbool dateOk)])
+  | _ => (false, [("canon", jbool false)])
+
+/-- op `c05.roundtrip` : {x, validate, vok, cd} ↦ read_stream(x, validate) and, on success,
+    dump(validate) / the bytes fed to SHA-1 / a second read of the dump -/
+def roundtrip (j : Json) : Except String Json := do
+  let x ← getHex j "x"
+  let validate ← getBool j "validate"
+  let env ← mkEnv j
+  let (hyp, flags) := hypOf env x
+  let r := read env x validate
+  let fields : List (String × Json) :=
+    match r with
+    | .error e => [("read", jobj [("err", jstr (errName e))])]
+    | .ok md =>
+      let d := dump env md validate
+      let second : Json := match d with
+        | .ok y => (match read env y validate with
+          | .ok md' => jobj [("ok", pyToJson (.dict md'))]
+          | .error e => jobj [("err", jstr (errName e))])
+        | .error _ => Json.null
+      [("read", jobj [("ok", pyToJson (.dict md))]),
+       ("dump", jexc jhex d),
+       ("infoBytes", jexc jhex (infoBytes env md)),
+       ("second", second)]
+  return jobj (fields ++ [("hyp", jbool hyp), ("flags", jobj flags), ("spec", jhex x)])
+
+/-- op `c05.codec` : {x} ↦ decode_dict / encode_dict round trip on the parsed value -/
+def codec (j : Json) : Except String Json := do
+  let x ← getHex j "x"
+  match parsePy x with
+  | some v =>
+    let d := decodeValue v
+    let e := encodeValue d
+    return jobj [("decoded", pyToJson d), ("encoded", jexc bvalJson e),
+                 ("same", jbool (match e with | .ok v' => beq v' v | _ => false)),
+                 ("hyp", jbool (canon v && utf8Keys v))]
+  | none => return jobj [("decoded", Json.null)]
+
+def handle (op : String) (j : Json) : Except String Json :=
+  match op with
+  | "c05.parse" => parseOp j
+  | "c05.roundtrip" => roundtrip j
+  | "c05.codec" => codec j
+  | _ => throw s!"unknown op {op}"
 
 end Driver.C05
